@@ -35,6 +35,9 @@ THEOREMS = {
         "MG.C04W.finalHLM_spec",
         "MG.C04W.opStep_applyMask",
     ],
+    "MG.Proofs.Lemmas.InPlaceFlag": [
+        "MG.C10F.inplace_ignores_explicit_constant",
+    ],
     "MG.Proofs.Lemmas.InPlaceView": [
         "MG.C04V.inplace_through_view_refines_numpy",
         "MG.C04V.mkDupGraph_one_view",
